@@ -71,8 +71,10 @@ Owner(clause, branches) ==
       [] clause = "tm"    -> IF "Start" \in branches THEN {"C03", "C04"} ELSE {"C03"}
       [] clause = "ic"    -> IF "Start" \in branches THEN {"C03", "C04"} ELSE {"C03"}
       [] clause = "done"  -> {"C04"}
-      [] clause = "exec"  -> {"C04"}
-      [] clause = "cur"   -> {"C04"}
+      \* "without that call the machine stops": is_executing / current_state after an iteration that was not requested
+      [] clause \in {"exec", "cur"} -> IF "Start" \notin branches
+                                          /\ branches \cap {"EarlyReturn", "Deactivate", "NoState", "DefaultFallback"} # {}
+                                       THEN {"C04", "C01"} ELSE {"C04"}
       [] OTHER -> {}
 Owned(clauses, branches) ==
     Prop = "ALL" \/ \E c \in clauses : Prop \in Owner(c, branches)
